@@ -57,7 +57,9 @@ def install_contract():
                 _contract["failures"].append(["column", v.rule_id, str(v.file_path), v.line, v.column, len(lines[v.line - 1])])
         return True  # record, never abort what is being observed
 
-    core.Orchestrator.lint_file = icontract.ensure(locations_ok, error=LocationContractBroken)(core.Orchestrator.lint_file)
+    # the per-file step of every entry point (lint_file, lint_files, lint_directory, pool workers): what it returns is about THAT file
+    prim = "_lint_file_with_rules" if hasattr(core.Orchestrator, "_lint_file_with_rules") else "lint_file"
+    setattr(core.Orchestrator, prim, icontract.ensure(locations_ok, error=LocationContractBroken)(getattr(core.Orchestrator, prim)))
 
 
 def dump_contract(extra):
